@@ -215,6 +215,19 @@ CHECKS['C14'] = {
     'technique': 'symbolic matrix-expression algebra over resolved calls + fold/closure shape matching',
 }
 
+CHECKS['C06'] = {
+    'category': 'other',
+    'text': 'Structural necessary conditions decided on MIR: the ridge penalty adds alpha*coef[i] (i >= 1) to the gradient and alpha to the information '
+            'diagonal; gradient = -X^T[w (y-mu) dmu/var] and information = X^T diag(w dmu^2/var) X as closed forms (weights included); eta adds the '
+            'offsets in fit and predict; the step is coef - solve(information, gradient); Err is returned exactly when the iteration budget is '
+            'exhausted without convergence; the Gaussian deviance has scale type Y^2 (RSS); dispersion, covariance = dispersion * inverse '
+            'information and standard errors = sqrt(diag) are wired as stated; design-matrix accesses obey the stride rule. Convergence to the MLE and '
+            'the link/variance tables of the non-Gaussian families are not decided.',
+    'design_ref': 'DESIGN.md 4.6, 3 (E-WIRE dependency signatures, E-GRD must-check, E-SYM)',
+    'note': 'The deviance/information stored after the loop use mu from before the last update (an O(tolerance) effect): observed, not armed.',
+    'technique': 'effect summaries under the element abstraction + term-shape/guard matching of the scoring loop + per-variant scale typing',
+}
+
 NOT_APPLICABLE = {
     'C09': 'accuracy of the Lanczos/asymptotic/Abramowitz-Stegun approximations over a continuum of arguments is a numerical '
            'quantity; no structural clause is a necessary condition without freezing coefficient tables (a brittle proxy); see DESIGN.md 4.9',
